@@ -1,8 +1,298 @@
-import Dashu.Model.Ratio.Spec
+import Dashu.Proofs.Ratio.Extra
+/-
+  C04 — Rational arithmetic is exact and RBig stays in lowest terms.
+
+  Property theorems only (proofs in `Dashu/Proofs/Ratio`).  The model (`Dashu/Model/Ratio`) mirrors
+  the macro bodies of `rational/src/{repr,rbig,add,mul,div,sign,round}.rs` over exact integers;
+  `Q` is a pair *as stored*, `Q.val` its value in Lean's `Rat` (`num / den`), `Reduced` the RBig
+  invariant (`0 < den ∧ gcd |num| den = 1`), `RelaxedInv` the Relaxed one (`0 < den`, not both
+  even).  No statement bounds the size of any integer or the length of any program.
+  `Spec.*` (`Model/Ratio/Spec.lean`) is the value-level meaning of each operation in `Rat`.
+-/
 namespace Dashu.Props.C04
 open Dashu.Model Dashu.Model.Ratio
 
-theorem neg_reduced (x : Q) (h : Reduced x) : Reduced (neg x) := by
-  simpa [Reduced, neg] using h
+-- ------------------------------------------------------------------ canonical form
+
+/-- zero is stored as 0/1 -/
+theorem reduced_zero_is_zero_over_one (q : Q) (h : Reduced q) (h0 : q.num = 0) : q.den = 1 :=
+  h.zero_den h0
+
+/-- the canonical form is unique: reduced pairs with equal values are equal pairs -/
+theorem reduced_unique (a b : Q) (ha : Reduced a) (hb : Reduced b) (h : a.val = b.val) : a = b :=
+  Reduced.ext ha hb h
+
+/-- `Repr::reduce` returns the canonical form of the same number -/
+theorem reduce_canonical (q : Q) (hd : 0 < q.den) :
+    ∃ r, reduce q = .ok r ∧ Reduced r ∧ r.val = q.val :=
+  reduce_spec q hd
+
+/-- `Repr::reduce_with_hint` is a full reduction whenever the common factor divides the hint -/
+theorem reduce_with_hint_canonical (q : Q) (hint : Nat) (hd : 0 < q.den) (hh : 0 < hint)
+    (hdvd : Nat.gcd q.num.natAbs q.den ∣ hint) :
+    ∃ r, reduceWithHint q hint = .ok r ∧ Reduced r ∧ r.val = q.val :=
+  reduceWithHint_spec q hint hd hh hdvd
+
+/-- `Repr::reduce2` strips exactly the common power of two and keeps the value -/
+theorem reduce2_strips_common_power_of_two (q : Q) (hd : 0 < q.den) :
+    ∃ r, reduce2 q = .ok r ∧ RelaxedInv r ∧ r.val = q.val ∧
+      (q.num ≠ 0 → ∃ k, q.num = r.num * 2 ^ k ∧ q.den = r.den * 2 ^ k) :=
+  reduce2_spec q hd
+
+/-- `RBig::from_parts` / `Relaxed::from_parts`: zero denominator panics, otherwise canonical -/
+theorem rbig_from_parts (n : Int) (d : Nat) :
+    (d = 0 → rFromParts n d = .error .divideByZero) ∧
+    (0 < d → ∃ r, rFromParts n d = .ok r ∧ Reduced r ∧ r.val = (n : Rat) / (d : Rat)) :=
+  ⟨fun h => h ▸ rFromParts_zero n, rFromParts_spec n d⟩
+
+theorem relaxed_from_parts (n : Int) (d : Nat) :
+    (d = 0 → xFromParts n d = .error .divideByZero) ∧
+    (0 < d → ∃ r, xFromParts n d = .ok r ∧ RelaxedInv r ∧ r.val = (n : Rat) / (d : Rat)) :=
+  ⟨fun h => by simp [xFromParts, h], xFromParts_spec n d⟩
+
+theorem rbig_from_parts_signed (n d : Int) :
+    (d = 0 → rFromPartsSigned n d = .error .divideByZero) ∧
+    (d ≠ 0 → ∃ r, rFromPartsSigned n d = .ok r ∧ Reduced r ∧ r.val = (n : Rat) / d) :=
+  rFromPartsSigned_spec n d
+
+theorem relaxed_from_parts_signed (n d : Int) :
+    (d = 0 → xFromPartsSigned n d = .error .divideByZero) ∧
+    (d ≠ 0 → ∃ r, xFromPartsSigned n d = .ok r ∧ RelaxedInv r ∧ r.val = (n : Rat) / d) :=
+  xFromPartsSigned_spec n d
+
+-- ------------------------------------------------------------------ addition through gcd(b, d)
+
+/-- key lemma of add.rs: with `g = gcd(b,d)`, whatever `(d/g)·a ± (b/g)·c` and `b·(d/g)` still
+    have in common divides `g` (so the gcd with the hint `g` is a full reduction, and `g = 1`
+    needs none) -/
+theorem addsub_remaining_factor_divides_hint (a c : Int) (b d : Nat) (hb : 0 < b) (hd : 0 < d)
+    (hab : Nat.gcd a.natAbs b = 1) (hcd : Nat.gcd c.natAbs d = 1) (s : Int) (hs : s = 1 ∨ s = -1) :
+    Nat.gcd (((d / Nat.gcd b d : Nat) : Int) * a + s * (((b / Nat.gcd b d : Nat) : Int) * c)).natAbs
+      (b * (d / Nat.gcd b d)) ∣ Nat.gcd b d :=
+  addsub_gcd_dvd a c b d hb hd
+    ((reduced_iff_isCoprime ⟨a, b⟩).1 ⟨hb, hab⟩).2 ((reduced_iff_isCoprime ⟨c, d⟩).1 ⟨hd, hcd⟩).2 s hs
+
+theorem rbig_add_exact (x y : Q) (hx : Reduced x) (hy : Reduced y) :
+    ∃ r, R.add x y = .ok r ∧ Reduced r ∧ r.val = x.val + y.val :=
+  R.add_spec x y hx hy
+
+theorem rbig_sub_exact (x y : Q) (hx : Reduced x) (hy : Reduced y) :
+    ∃ r, R.sub x y = .ok r ∧ Reduced r ∧ r.val = x.val - y.val :=
+  R.sub_spec x y hx hy
+
+-- non-vacuity: both branches of add.rs on concrete reduced operands
+example : Reduced ⟨3, 4⟩ ∧ Reduced ⟨-5, 6⟩ ∧ R.add ⟨3, 4⟩ ⟨-5, 6⟩ = .ok ⟨-1, 12⟩ := by decide
+example : Reduced ⟨1, 6⟩ ∧ Reduced ⟨1, 3⟩ ∧ R.add ⟨1, 6⟩ ⟨1, 3⟩ = .ok ⟨1, 2⟩ := by decide
+example : Reduced ⟨1, 2⟩ ∧ Reduced ⟨1, 3⟩ ∧ R.sub ⟨1, 2⟩ ⟨1, 3⟩ = .ok ⟨1, 6⟩ := by decide
+
+-- ------------------------------------------------------------------ multiplication, division
+
+/-- cross cancellation `gcd(a,d)`, `gcd(b,c)` before multiplying leaves a reduced product -/
+theorem rbig_mul_exact (x y : Q) (hx : Reduced x) (hy : Reduced y) :
+    ∃ r, R.mul x y = .ok r ∧ Reduced r ∧ r.val = x.val * y.val :=
+  R.mul_spec x y hx hy
+
+theorem rbig_div_exact (x y : Q) (hx : Reduced x) (hy : Reduced y) :
+    (y.num = 0 → R.div x y = .error .divideByZero) ∧
+    (y.num ≠ 0 → ∃ r, R.div x y = .ok r ∧ Reduced r ∧ r.val = x.val / y.val) :=
+  R.div_spec x y hx hy
+
+example : Reduced ⟨-10, 9⟩ ∧ Reduced ⟨-15, 4⟩ ∧ R.div ⟨-10, 9⟩ ⟨-15, 4⟩ = .ok ⟨8, 27⟩ := by decide
+
+/-- inverse; the inverse of zero is the `DivideByZero` panic -/
+theorem rbig_inv_exact (x : Q) (hx : Reduced x) :
+    (x.num = 0 → inv x = .error .divideByZero) ∧
+    (x.num ≠ 0 → ∃ r, inv x = .ok r ∧ Reduced r ∧ r.val = 1 / x.val) :=
+  inv_spec x hx
+
+theorem rbig_pow_exact (x : Q) (n : Nat) (hx : Reduced x) :
+    Reduced (pow x n) ∧ (pow x n).val = x.val ^ n :=
+  pow_spec x n hx
+
+theorem rbig_sqr_exact (x : Q) (hx : Reduced x) :
+    Reduced (sqr x) ∧ (sqr x).val = x.val * x.val := by
+  rw [sqr_eq_pow]; have := pow_spec x 2 hx; exact ⟨this.1, by rw [this.2, pow_two]⟩
+
+theorem rbig_cubic_exact (x : Q) (hx : Reduced x) :
+    Reduced (cubic x) ∧ (cubic x).val = x.val * x.val * x.val := by
+  rw [cubic_eq_pow]; have := pow_spec x 3 hx; exact ⟨this.1, by rw [this.2]; ring⟩
+
+theorem rbig_neg_exact (x : Q) (hx : Reduced x) : Reduced (neg x) ∧ (neg x).val = -x.val :=
+  neg_spec x hx
+
+theorem rbig_abs_exact (x : Q) (hx : Reduced x) : Reduced (abs x) ∧ (abs x).val = |x.val| :=
+  abs_spec x hx
+
+theorem rbig_signum_exact (x : Q) (hx : Reduced x) :
+    Reduced (signum x) ∧ (signum x).val = Spec.sgnRat x.val := by
+  rcases signum_spec x with h | h
+  · exact h
+  · have := hx.den_pos; omega
+
+theorem rbig_mul_sign_exact (x : Q) (s : Bool) (hx : Reduced x) :
+    Reduced (mulSign x s) ∧ (mulSign x s).val = if s then -x.val else x.val :=
+  mulSign_spec x s hx
+
+-- ------------------------------------------------------------------ remainders
+
+/-- `%`: the remainder of least magnitude, `x − y·round(x/y)`, ties away from zero -/
+theorem rbig_rem_exact (x y : Q) (hx : Reduced x) (hy : Reduced y) :
+    (y.num = 0 → R.rem x y = .error .divideByZero) ∧
+    (y.num ≠ 0 → ∃ r, R.rem x y = .ok r ∧ Reduced r ∧ r.val = Spec.rem x.val y.val) :=
+  R.rem_spec x y hx hy
+
+/-- what `Spec.round` is: the nearest integer, ties away from zero -/
+theorem spec_round_characterisation (q : Rat) :
+    (0 ≤ q → ((Spec.round q : Int) : Rat) - 1 / 2 ≤ q ∧ q < (Spec.round q : Int) + 1 / 2) ∧
+    (q < 0 → ((Spec.round q : Int) : Rat) - 1 / 2 < q ∧ q ≤ (Spec.round q : Int) + 1 / 2) :=
+  round_bounds q
+
+theorem rbig_rem_euclid_exact (x y : Q) (hx : Reduced x) (hy : Reduced y) :
+    (y.num = 0 → R.remEuclid x y = .error .divideByZero) ∧
+    (y.num ≠ 0 → ∃ r, R.remEuclid x y = .ok r ∧ Reduced r ∧ r.val = Spec.remEuclid x.val y.val) :=
+  R.remEuclid_spec x y hx hy
+
+/-- `div_euclid` (RBig and Relaxed share the body) -/
+theorem div_euclid_exact (x y : Q) (hb : 0 < x.den) (hd : 0 < y.den) :
+    (y.num = 0 → R.divEuclid x y = .error .divideByZero) ∧
+    (y.num ≠ 0 → R.divEuclid x y = .ok (Spec.divEuclid x.val y.val)) :=
+  divEuclid_spec x y hb hd
+
+theorem rbig_div_rem_euclid_exact (x y : Q) (hx : Reduced x) (hy : Reduced y) :
+    (y.num = 0 → R.divRemEuclid x y = .error .divideByZero) ∧
+    (y.num ≠ 0 → ∃ r, R.divRemEuclid x y = .ok (Spec.divEuclid x.val y.val, r) ∧ Reduced r ∧
+        r.val = Spec.remEuclid x.val y.val) :=
+  R.divRemEuclid_spec x y hx hy
+
+example : Reduced ⟨-1, 2⟩ ∧ Reduced ⟨1, 3⟩ ∧ R.rem ⟨-1, 2⟩ ⟨1, 3⟩ = .ok ⟨1, 6⟩ ∧
+    R.divRemEuclid ⟨-1, 2⟩ ⟨1, 3⟩ = .ok (-2, ⟨1, 6⟩) := by decide
+
+-- ------------------------------------------------------------------ rounding (round.rs)
+
+theorem trunc_exact (x : Q) (hb : 0 < x.den) : trunc x = .ok (Spec.trunc x.val) :=
+  trunc_spec x hb
+
+theorem floor_exact (x : Q) (hb : 0 < x.den) : floor x = .ok x.val.floor := floor_spec x hb
+
+theorem ceil_exact (x : Q) (hb : 0 < x.den) : ceil x = .ok x.val.ceil := ceil_spec x hb
+
+theorem round_exact (x : Q) (hb : 0 < x.den) : round x = .ok (Spec.round x.val) := round_spec x hb
+
+/-- `fract` of an RBig needs no reduction ("no need to reduce here", round.rs) -/
+theorem rbig_fract_exact (x : Q) (hx : Reduced x) :
+    ∃ r, fract x = .ok r ∧ Reduced r ∧ r.val = x.val - (Spec.trunc x.val : Rat) :=
+  R.fract_spec x hx
+
+theorem split_at_point_is_trunc_fract (x : Q) (hb : 0 < x.den) :
+    splitAtPoint x = (trunc x >>= fun t => fract x >>= fun f => pure (t, f)) :=
+  splitAtPoint_eq x hb
+
+-- ------------------------------------------------------------------ mixed with integers
+
+theorem rbig_add_int_exact (sub : Bool) (x : Q) (i : Int) (hx : Reduced x) :
+    Reduced (R.addSubInt sub x i) ∧
+      (R.addSubInt sub x i).val = if sub then x.val - i else x.val + i :=
+  R.addSubInt_spec sub x i hx
+
+theorem int_sub_rbig_exact (i : Int) (x : Q) (hx : Reduced x) :
+    Reduced (R.intSub i x) ∧ (R.intSub i x).val = i - x.val :=
+  R.intSub_spec i x hx
+
+theorem rbig_mul_int_exact (x : Q) (i : Int) (hx : Reduced x) :
+    ∃ r, R.mulInt x i = .ok r ∧ Reduced r ∧ r.val = x.val * i :=
+  R.mulInt_spec x i hx
+
+theorem rbig_div_int_exact (x : Q) (i : Int) (hx : Reduced x) :
+    (i = 0 → R.divInt x i = .error .divideByZero) ∧
+    (i ≠ 0 → ∃ r, R.divInt x i = .ok r ∧ Reduced r ∧ r.val = x.val / i) :=
+  R.divInt_spec x i hx
+
+theorem int_div_rbig_exact (i : Int) (x : Q) (hx : Reduced x) :
+    (x.num = 0 → R.intDiv i x = .error .divideByZero) ∧
+    (x.num ≠ 0 → ∃ r, R.intDiv i x = .ok r ∧ Reduced r ∧ r.val = i / x.val) :=
+  R.intDiv_spec i x hx
+
+-- ------------------------------------------------------------------ Relaxed
+
+/-- every binary operator of both types against the value-level specification: a valid result
+    with the specified value, or `DivideByZero` exactly where the specification divides by zero -/
+theorem binary_ops_exact (o : Bin) (k : Kind) (x y : Q) (hx : k.Inv x) (hy : k.Inv y) :
+    match evalBin o k x y with
+    | .ok q => k.Inv q ∧ Spec.bin o x.val y.val = some q.val
+    | .error e => e = .divideByZero ∧ Spec.bin o x.val y.val = none :=
+  evalBin_good o k x y hx hy
+
+theorem int_right_ops_exact (o : IntOp) (k : Kind) (x : Q) (z : Int) (hx : k.Inv x) :
+    match evalIntR o k x z with
+    | .ok q => k.Inv q ∧ Spec.intR o x.val z = some q.val
+    | .error e => e = .divideByZero ∧ Spec.intR o x.val z = none :=
+  evalIntR_good o k x z hx
+
+theorem int_left_ops_exact (o : IntOp) (k : Kind) (z : Int) (x : Q) (hx : k.Inv x) :
+    match evalIntL o k z x with
+    | .ok q => k.Inv q ∧ Spec.intL o z x.val = some q.val
+    | .error e => e = .divideByZero ∧ Spec.intL o z x.val = none :=
+  evalIntL_good o k z x hx
+
+theorem unary_ops_exact (o : Un) (r : Reg) (hr : r.Inv) :
+    match evalUn o r with
+    | .ok r' => r'.Inv ∧ Spec.un o r.val = some r'.val
+    | .error e => e = .divideByZero ∧ Spec.un o r.val = none :=
+  evalUn_good o r hr
+
+theorem relaxed_div_rem_euclid_exact (x y : Q) (hx : RelaxedInv x) (hy : RelaxedInv y) :
+    (y.num = 0 → X.divRemEuclid x y = .error .divideByZero) ∧
+    (y.num ≠ 0 → ∃ r, X.divRemEuclid x y = .ok (Spec.divEuclid x.val y.val, r) ∧ RelaxedInv r ∧
+        r.val = Spec.remEuclid x.val y.val) :=
+  X.divRemEuclid_spec x y hx hy
+
+/-- **Relaxed = RBig**: on operands denoting the same numbers every binary operator panics with
+    the same kind on both types or returns the same value, and canonicalising the Relaxed result
+    gives exactly the stored RBig result -/
+theorem relaxed_equals_rbig (o : Bin) (x y x' y' : Q) (hx : RelaxedInv x) (hy : RelaxedInv y)
+    (hx' : Reduced x') (hy' : Reduced y') (ex : x.val = x'.val) (ey : y.val = y'.val) :
+    match evalBin o .X x y, evalBin o .R x' y' with
+    | .ok r, .ok r' => r.val = r'.val ∧ reduce r = .ok r'
+    | .error e, .error e' => e = e'
+    | _, _ => False :=
+  relaxed_eq_rbig o x y x' y' hx hy hx' hy' ex ey
+
+example : RelaxedInv ⟨9, 6⟩ ∧ RelaxedInv ⟨15, 9⟩ ∧ X.mul ⟨9, 6⟩ ⟨15, 9⟩ = .ok ⟨135, 54⟩ ∧
+    R.mul ⟨3, 2⟩ ⟨5, 3⟩ = .ok ⟨5, 2⟩ := by
+  refine ⟨by decide, by decide, ?_, by decide⟩
+  simp [X.mul, xFromParts, reduce2, tz]
+
+-- ------------------------------------------------------------------ histories
+
+/-- **step theorem** -/
+theorem step_exact (env : List Reg) (op : Op) (henv : ∀ r ∈ env, r.Inv) :
+    match step env op with
+    | .ok r => r.Inv ∧ Spec.step (env.map Reg.val) op = some r.val
+    | .panic k => k = .divideByZero ∧ Spec.step (env.map Reg.val) op = none
+    | .bad => True :=
+  step_sound env op henv
+
+/-- **history theorem** (the "every RBig ever produced" quantifier): for every finite program over
+    a register file of valid values, every register ever produced — also those produced before a
+    panic — satisfies the invariant of its type: an RBig register has a positive denominator
+    coprime to its numerator (zero is 0/1), a Relaxed register is not even/even. -/
+theorem history_invariant (ops : List Op) (env : List Reg) (henv : ∀ r ∈ env, r.Inv) :
+    ∀ r ∈ (run ops env).1, r.Inv :=
+  run_inv ops env henv
+
+/-- **history theorem** (values): a program computes exactly the value-level interpretation of
+    the same program, stops at the same step, and only ever panics with `DivideByZero`. -/
+theorem history_values (ops : List Op) (env : List Reg) (henv : ∀ r ∈ env, r.Inv) :
+    match (run ops env).2 with
+    | .done => Spec.run ops (env.map Reg.val) = ((run ops env).1.map Reg.val, true)
+    | .panic k => k = .divideByZero ∧
+        Spec.run ops (env.map Reg.val) = ((run ops env).1.map Reg.val, false)
+    | .bad => True :=
+  run_vals ops env henv
+
+-- non-vacuity: a program feeding results back, all registers reduced
+example : (run [.bin .add 0 1, .bin .mul 2 2, .bin .div 3 0, .un .inv 4, .intR .add 5 (-5)]
+    [⟨.R, ⟨3, 4⟩⟩, ⟨.R, ⟨-5, 6⟩⟩]).1.map (·.q) =
+    [⟨3, 4⟩, ⟨-5, 6⟩, ⟨-1, 12⟩, ⟨1, 144⟩, ⟨1, 108⟩, ⟨108, 1⟩, ⟨103, 1⟩] := by decide
 
 end Dashu.Props.C04
